@@ -66,6 +66,9 @@ pub struct BackendTrace {
     /// this item index and would continue afterwards (the adapter must fuse it)
     #[serde(default)]
     pub gap_at: Option<usize>,
+    /// FallibleIter: the wrapped iterator gives no size hint
+    #[serde(default)]
+    pub inexact_hint: bool,
     pub ops: Vec<BOp>,
 }
 
@@ -515,29 +518,61 @@ fn exec_iter<W: BitArray>(t: &BackendTrace, init: &[W], ctx: &mut Ctx) -> Result
     // what the consumer must see: everything up to the first end-of-data, then nothing
     let want: Vec<Result<W, u32>> = match gap { Some(g) => items[..g].to_vec(), None => items.clone() };
     let no_errors = !want.iter().any(|x| x.is_err()) && gap.is_none();
-    let mut b = FallibleIteratorReadWords::new(Gappy { items, i: 0, gap_at: gap, gap_done: false });
-    let mut idx = 0;
-    for (i, op) in t.ops.iter().enumerate() {
-        ctx.op = i;
-        match op {
-            BOp::ReadStack | BOp::ReadQueue => {
-                let got = if matches!(op, BOp::ReadStack) { ReadWords::<W, Stack>::read(&mut b) } else { ReadWords::<W, Queue>::read(&mut b) };
-                ctx.stats.hit("op-read-iter");
-                let w = match want.get(idx) { Some(Ok(w)) => Ok(Some(*w)), Some(Err(e)) => { ctx.stats.hit("fault-read-error"); Err(*e) } None => Ok(None) };
-                idx += 1;
-                if got != w {
-                    viol!(ctx, "iter-read", "read {} -> {:?}, expected {:?}", idx - 1, got, w);
-                }
-            }
-            BOp::RemainingStack | BOp::RemainingQueue if no_errors => {
-                let got = BoundedReadWords::<W, Stack>::remaining(&b);
-                let left = want.len().saturating_sub(idx);
-                if got != left {
-                    viol!(ctx, "iter-remaining", "remaining() = {} but {} reads will succeed", got, left);
-                }
-            }
-            _ => ctx.stats.hit("skipped-op"),
+    // the same iterator behind an opaque wrapper: no usable size hint (a stream from a file or
+    // socket, `iter::from_fn`); chosen by the trace
+    struct Opaque<I>(I);
+    impl<I: Iterator> Iterator for Opaque<I> {
+        type Item = I::Item;
+        fn next(&mut self) -> Option<Self::Item> {
+            self.0.next()
         }
+    }
+    let inexact = t.inexact_hint;
+    macro_rules! run {
+        ($b:expr, $remaining:expr) => {{
+            let mut b = $b;
+            let mut idx = 0;
+            for (i, op) in t.ops.iter().enumerate() {
+                ctx.op = i;
+                match op {
+                    BOp::ReadStack | BOp::ReadQueue => {
+                        let got = if matches!(op, BOp::ReadStack) { ReadWords::<W, Stack>::read(&mut b) } else { ReadWords::<W, Queue>::read(&mut b) };
+                        ctx.stats.hit("op-read-iter");
+                        let w = match want.get(idx) { Some(Ok(w)) => Ok(Some(*w)), Some(Err(e)) => { ctx.stats.hit("fault-read-error"); Err(*e) } None => Ok(None) };
+                        idx += 1;
+                        if got != w {
+                            viol!(ctx, "iter-read", "read {} -> {:?}, expected {:?}", idx - 1, got, w);
+                        }
+                    }
+                    BOp::RemainingStack | BOp::RemainingQueue if no_errors => {
+                        let r: Option<fn(&_) -> usize> = $remaining;
+                        if let Some(r) = r {
+                            let got = r(&b);
+                            let left = want.len().saturating_sub(idx);
+                            if got != left {
+                                viol!(ctx, "iter-remaining", "remaining() = {} but {} reads will succeed", got, left);
+                            }
+                        }
+                    }
+                    BOp::MaybeFlags => {
+                        // `maybe_exhausted() == false` is a promise that the next read is not end-of-data
+                        let (s, q) = (ReadWords::<W, Stack>::maybe_exhausted(&b), ReadWords::<W, Queue>::maybe_exhausted(&b));
+                        ctx.stats.hit("op-maybe-flags-iter");
+                        if (!s || !q) && want.get(idx).is_none() {
+                            viol!(ctx, "iter-maybe-exhausted", "maybe_exhausted() = ({}, {}) (stack, queue) but the next read is end-of-data ({} size hint)", s, q, if inexact { "no" } else { "exact" });
+                        }
+                    }
+                    _ => ctx.stats.hit("skipped-op"),
+                }
+            }
+        }};
+    }
+    let gappy = Gappy { items, i: 0, gap_at: gap, gap_done: false };
+    if inexact {
+        ctx.stats.hit("probe-iterator-without-size-hint");
+        run!(FallibleIteratorReadWords::new(Opaque(gappy)), None);
+    } else {
+        run!(FallibleIteratorReadWords::new(gappy), Some(|b| BoundedReadWords::<W, Stack>::remaining(b)));
     }
     Ok(())
 }
@@ -615,5 +650,5 @@ pub fn generate(seed: u64, _prop: &str, _thorough: bool) -> BackendTrace {
         });
     }
     let gap_at = if kind == Kind::FallibleIter && frng.chance(1, 3) { Some(frng.usize(n + 1)) } else { None };
-    BackendTrace { word, kind, init, pos, err_at, gap_at, ops }
+    BackendTrace { word, kind, init, pos, err_at, gap_at, inexact_hint: kind == Kind::FallibleIter && frng.chance(1, 2), ops }
 }
